@@ -383,7 +383,7 @@ impl SimBackend {
                 let mut files = std::mem::ManuallyDrop::new(vec![]);
                 for k in 0..4u32 {
                     let f = OpenOptions::new().read(true).write(true).create(true).open(fs_path(k))?;
-                    f.write_at(&[0x55u8; 256], 0)?;
+                    f.write_at(&[0x55u8; 4096], 0)?;
                     files.push(f);
                 }
                 loop {
@@ -405,7 +405,7 @@ impl SimBackend {
                                     // the real path: silent corruption on read fires turmoil's fs corruption hook
                                     let mut b = [0u8; 1];
                                     let f = &files[(val as usize) % files.len()];
-                                    let _ = f.read_at(&mut b, (tid % 256) as u64);
+                                    let _ = f.read_at(&mut b, (tid % 4096) as u64);
                                 } else {
                                     do_trigger_noop(ty, val, tid);
                                 }
@@ -721,6 +721,101 @@ fn random_case(rng: &mut Rng, sim: bool, fshook: bool) -> Vec<Op> {
     ops
 }
 
+/// Long backlogs: hundreds of matching triggers (sync and async) queued on one barrier — and spread over
+/// several — before the test waits at all; then waits that must hand out every one of them, once, in order.
+/// The channel between source and test has no capacity the source could ever notice.
+fn backlog_case(rng: &mut Rng, sim: bool, fshook: bool) -> Vec<Op> {
+    let ty: u8 = if fshook { 2 } else { 0 };
+    let nb = rng.range(1, 3) as usize;
+    let n = if sim { rng.range(70, 150) } else { rng.range(70, 400) } as usize;
+    // sim: a panic ends the case, so only reactions that cannot panic with the trigger kinds used
+    let main_react = if fshook || rng.chance(3, 4) { React::Noop } else { React::Suspend };
+    let mut ops = vec![];
+    let mut reacts = vec![];
+    match nb {
+        1 => {
+            ops.push(Op::Build { r: main_react, ty, c: Cond::Any });
+            reacts.push((main_react, Cond::Any));
+        }
+        2 => {
+            let r1 = if fshook || rng.chance(1, 2) { React::Noop } else { React::Suspend };
+            ops.push(Op::Build { r: main_react, ty, c: Cond::Ne(1) });
+            ops.push(Op::Build { r: r1, ty, c: Cond::Eq(1) });
+            reacts.push((main_react, Cond::Ne(1)));
+            reacts.push((r1, Cond::Eq(1)));
+        }
+        _ => {
+            let r1 = if fshook || rng.chance(1, 2) { React::Noop } else { React::Suspend };
+            let r2 = if !sim && rng.chance(1, 4) { React::Panic } else { React::Noop };
+            ops.push(Op::Build { r: main_react, ty, c: Cond::Lt(1) });
+            ops.push(Op::Build { r: r1, ty, c: Cond::Eq(1) });
+            ops.push(Op::Build { r: r2, ty, c: Cond::Any });
+            reacts.push((main_react, Cond::Lt(1)));
+            reacts.push((r1, Cond::Eq(1)));
+            reacts.push((r2, Cond::Any));
+        }
+    }
+    let first_match = |v: u32| reacts.iter().position(|(_, c)| c.eval(v));
+    let mut counts = vec![0usize; nb];
+    let mut tid = 0u32;
+    let mut early_waits = rng.chance(1, 4);
+    for i in 0..n {
+        let val = match rng.below(10) {
+            0..=6 => 0,
+            7 | 8 => 1,
+            _ => rng.range(2, 3) as u32,
+        };
+        let b = first_match(val);
+        let react = b.map(|b| reacts[b].0);
+        // sync triggers on a Suspend barrier panic (misuse): fine on the direct backend, fatal in a Sim
+        let sync = if fshook {
+            true
+        } else if sim && react == Some(React::Suspend) {
+            false
+        } else {
+            rng.chance(1, 2)
+        };
+        let host = rng.below(2) as u8;
+        ops.push(if sync { Op::TriggerNoop { host, ty, val } } else { Op::Trigger { host, ty, val } });
+        if let (Some(b), Some(r)) = (b, react) {
+            if r == React::Noop || (r == React::Suspend && !sync) {
+                counts[b] += 1;
+            }
+        }
+        tid += 1;
+        if early_waits && i > 80 && rng.chance(1, 40) {
+            // a short burst of waits in the middle, then the backlog keeps growing
+            for _ in 0..rng.range(1, 5) {
+                ops.push(Op::Wait(0));
+            }
+            early_waits = rng.chance(1, 2);
+        }
+    }
+    // now the test catches up
+    let mut order: Vec<usize> = (0..nb).collect();
+    if rng.chance(1, 2) {
+        order.reverse();
+    }
+    let mut got = 0u32;
+    for b in order {
+        for k in 0..counts[b] + 2 {
+            ops.push(Op::Wait(b as u32));
+            if k % 7 == 3 && rng.chance(1, 2) && got < tid {
+                ops.push(Op::DropHandle(rng.below(tid as u64) as u32));
+            }
+            got += 1;
+        }
+    }
+    for b in 0..nb {
+        ops.push(Op::DropBarrier(b as u32));
+    }
+    // every handle goes: whatever was parked must have come back by the end
+    for t in 0..tid {
+        ops.push(Op::DropHandle(t));
+    }
+    ops
+}
+
 pub fn main(args: &Args, out: &mut dyn Write) {
     let mut rng = Rng::new(args.seed);
     let mut cases: Vec<Case> = vec![];
@@ -786,6 +881,20 @@ pub fn main(args: &Args, out: &mut dyn Write) {
             if i % step == off {
                 cases.push(Case { family: "exhsim", backend: "sim", ops: s.clone() });
             }
+        }
+        let (n_bl, n_bl_sim, n_bl_fs) = match args.tier.as_str() {
+            "thorough" => (600usize, 60usize, 40usize),
+            "search" => (150, 20, 12),
+            _ => (40, 6, 4),
+        };
+        for _ in 0..n_bl {
+            cases.push(Case { family: "backlog", backend: "direct", ops: backlog_case(&mut rng, false, false) });
+        }
+        for _ in 0..n_bl_sim {
+            cases.push(Case { family: "backlogsim", backend: "sim", ops: backlog_case(&mut rng, true, false) });
+        }
+        for _ in 0..n_bl_fs {
+            cases.push(Case { family: "backlogfs", backend: "sim", ops: backlog_case(&mut rng, true, true) });
         }
         for _ in 0..n_rand {
             cases.push(Case { family: "rand", backend: "direct", ops: random_case(&mut rng, false, false) });
